@@ -33,6 +33,7 @@ is a shape the extractor does not understand (fail-closed, less serious, still w
     lambda-to-def  a lambda in a statement of a function body -> a local def just before it
     minmax-forms   v = min(v, e) -> if e < v: v = e; min(a, b) -> a if a <= b else b / min([a, b])
     extract-helper an arithmetic / boolean / conditional value of a return or assignment -> module-level helper over the locals it reads
+    comprehension-to-loop  x = [E for v in it if c] -> x = []; for v in it: if c: x.append(E) (also sets, dicts, returns)
     hoist-strings  a string literal used twice in the functions of a module becomes a module-level constant
     extract-alias  .. x.costs[a] .. x.costs[b] ..  ->  alias = x.costs; .. alias[a] .. alias[b] ..
     inline-alias   c = x.costs; .. c[k] ..  ->  .. x.costs[k] ..   (top-level local bound once to an attribute chain of a parameter)
@@ -954,6 +955,89 @@ class ExtractHelper(Rewrite):
         return node
 
 
+
+class ComprehensionToLoop(Rewrite):
+    """x = [E for v in it if c]  ->  x = []; for v in it: if c: x.append(E)   (also set / dict displays, `return [..]`
+    through a fresh local); only comprehensions whose loop variables are not otherwise names of the function"""
+
+    def __init__(self, only=None):
+        super().__init__(only)
+        self.fn_names = [set()]
+
+    def visit_FunctionDef(self, node):
+        names = {a.arg for a in ast.walk(node) if isinstance(a, ast.arg)}
+        comp_targets = set()
+        for n in ast.walk(node):
+            if isinstance(n, ast.Name):
+                names.add(n.id)
+        self.fn_names.append(names)
+        try:
+            return self.generic_visit(node)
+        finally:
+            self.fn_names.pop()
+
+    def _loop(self, comp, target_name):
+        tgt = lambda: ast.Name(id=target_name, ctx=ast.Load())  # noqa: E731
+        if isinstance(comp, ast.ListComp):
+            empty, add = ast.List(elts=[], ctx=ast.Load()), ast.Expr(ast.Call(func=ast.Attribute(value=tgt(), attr="append", ctx=ast.Load()), args=[comp.elt], keywords=[]))
+        elif isinstance(comp, ast.SetComp):
+            empty, add = ast.Call(func=ast.Name(id="set", ctx=ast.Load()), args=[], keywords=[]), ast.Expr(ast.Call(func=ast.Attribute(value=tgt(), attr="add", ctx=ast.Load()), args=[comp.elt], keywords=[]))
+        else:
+            empty, add = ast.Dict(keys=[], values=[]), ast.Assign(targets=[ast.Subscript(value=tgt(), slice=comp.key, ctx=ast.Store())], value=comp.value)
+        body = [add]
+        for gen in reversed(comp.generators):
+            for cond in reversed(gen.ifs):
+                body = [ast.If(test=cond, body=body, orelse=[])]
+            body = [ast.For(target=gen.target, iter=gen.iter, body=body, orelse=[])]
+        return [ast.Assign(targets=[ast.Name(id=target_name, ctx=ast.Store())], value=empty)] + body
+
+    def _ok(self, comp, own):
+        if not isinstance(comp, (ast.ListComp, ast.SetComp, ast.DictComp)) or any(g.is_async for g in comp.generators) or len(self.fn_names) < 2:
+            return False
+        loopvars = {n.id for g in comp.generators for n in ast.walk(g.target) if isinstance(n, ast.Name)}
+        # the loop variables must be names only this comprehension uses (they become function locals)
+        inside = [n.id for n in ast.walk(comp) if isinstance(n, ast.Name)]
+        fn = self._fn_counts
+        if any(fn.get(v, 0) != inside.count(v) for v in loopvars):
+            return False
+        if own in {n.id for n in ast.walk(comp) if isinstance(n, ast.Name)}:
+            return False
+        if any(isinstance(x, (ast.Lambda, ast.ListComp, ast.SetComp, ast.DictComp, ast.GeneratorExp)) for part in ast.iter_child_nodes(comp) for x in ast.walk(part)):
+            return False
+        return True
+
+    def _block(self, stmts):
+        out = []
+        for st in stmts:
+            st = self.visit(st)
+            if isinstance(st, ast.Assign) and len(st.targets) == 1 and isinstance(st.targets[0], ast.Name) and self._ok(st.value, st.targets[0].id) and self.hit():
+                out.extend(self._loop(st.value, st.targets[0].id))
+                continue
+            if isinstance(st, ast.Return) and st.value is not None and self._ok(st.value, "") and self.hit():
+                name = f"acc_eq{self.count}"
+                out.extend(self._loop(st.value, name))
+                out.append(ast.Return(value=ast.Name(id=name, ctx=ast.Load())))
+                continue
+            out.append(st)
+        return out
+
+    def generic_visit(self, node):
+        if isinstance(node, (ast.FunctionDef, ast.AsyncFunctionDef)):
+            counts = {}
+            for n in ast.walk(node):
+                if isinstance(n, ast.Name):
+                    counts[n.id] = counts.get(n.id, 0) + 1
+                elif isinstance(n, ast.arg):
+                    counts[n.arg] = counts.get(n.arg, 0) + 1000
+            saved = getattr(self, "_fn_counts", {})
+            self._fn_counts = counts
+            try:
+                return IfExpToStmt.generic_visit(self, node)
+            finally:
+                self._fn_counts = saved
+        return IfExpToStmt.generic_visit(self, node)
+
+
 def package_signatures(prog):
     seen, dup = {}, set()
     for mod in prog.modules.values():
@@ -1001,6 +1085,7 @@ REWRITES = {
     "hoist-strings": lambda sig, only: HoistStrings(only),
     "modern-annotations": lambda sig, only: ModernAnnotations(only),
     "ete-synonyms": lambda sig, only: EteSynonyms(only),
+    "comprehension-to-loop": lambda sig, only: ComprehensionToLoop(only),
     "extract-helper": lambda sig, only: ExtractHelper(only),
     "lambda-to-def": lambda sig, only: LambdaToDef(only),
     "minmax-forms": lambda sig, only: MinMaxForms(only),
